@@ -320,7 +320,9 @@ def f_flag_prefix(case, r):
         return []
     s = out_str(r)
     want = '(?ix)\n' if ('i' in fl and 'x' in fl) else '(?i)' if 'i' in fl else '(?x)\n' if 'x' in fl else ''
-    ok = s.startswith(want) and (want != '' or not s.startswith('(?i') and not s.startswith('(?x'))
+    # the properties ask for the flag group at the start; the line break after it is layout and is absent when nothing
+    # follows (the empty test case with both anchors off prints just "(?x)": Props/C06 verbose_flag_line_counterexample)
+    ok = (s.startswith(want) or (want.endswith('\n') and s == want[:-1])) and (want != '' or not s.startswith('(?i') and not s.startswith('(?x'))
     return [] if ok else [{'kind': 'flag', 'detail': 'flag prefix of %r is not %r' % (s[:8], want)}]
 
 def f_groups(case, r):
